@@ -6,6 +6,14 @@ T = "explicit TLA+ specification checked with TLC (exhaustive design model) + TL
 checks = {
  "C01": dict(text="TxPath.tla (code-shaped model of QueuePackage/SendRemainingPackets/sendPackets on the packet queue) is checked exhaustively by TLC for body sizes 2..4, all call splits, successive messages and size changes (the pinned algorithm is kept as a negative config that TLC refutes); all behaviours of the small scope are replayed on the real Channel, and traces of the real Channel at every boundary length k*(ps-8)+d (quick: ~60 packet sizes; thorough: every size 256..65535) are validated by TLC against the contract Trace_TxPath.tla.",
              note="Trusted: harness wire parser and content comparison (field clean), TLC. Channel 0 only here (channels>0: C12). Messages in which a call failed are not judged.", ref="§7 C01"),
+ "C02": dict(text="RxPath.tla (code-shaped model of WritePacket/tryParsePackage/handleSpecialPackage on the packet queue) is checked exhaustively by TLC for all responses of up to 3 packages, all packetisations and two rounds; TLC-simulated behaviours are concretised and replayed on the real Channel; recorded traces of every 1-cut, sampled 2-cuts, all 2^(n-1) cut sets of short responses and read partitions through the reader goroutine are validated by TLC against Trace_RxPath.tla, whose oracle is the reference run of the same response (one packet, one read).",
+             note="Trusted: harness encoder for server packages, reflective field dump as equality of field values, TLC. Judged responses only (see DESIGN.md C02/C03 unspecified region).", ref="§7 C02"),
+ "C03": dict(text="Same design model (rounds, synthetic final DONE, no carry-over) checked exhaustively; multi-round sequences on one channel consumed with NextPackage and with NextPackageUntil under scripted callback outcomes (continue/stop/io.EOF/error/nil callback) are recorded and validated by TLC against Trace_RxPath.tla (exactly one final DONE, next response starts clean, callback error drains the response).",
+             note="Trusted: as C02. DONEPROC/DONEINPROC with status 0 in mid-response is outside the judged domain (open question).", ref="§7 C03"),
+ "C11": dict(text="Same design model (hooks exactly once also under retried parses, special packages never delivered) checked exhaustively; traces with 0..n EED (info / non-info) and ENVCHANGE members of all types at all positions, hooks registered before and between responses, callback failures, direct and through the reader goroutine, are validated by TLC against Trace_RxPath.tla with the C11 constraints enabled (JUDGE=C11).",
+             note="Trusted: as C02; hook events are emitted from inside the callbacks (ordering rule R2).", ref="§7 C11"),
+ "C14": dict(text="The transport is failed at every byte offset of bounded responses with EOF / reset / timeout style errors under random chunkings; the recorded traces are validated by TLC against Trace_RxPath.tla: deliveries are a prefix of the reference run with equal values, only from completely received packets, no synthetic final DONE before the EOM packet is complete, then an error within the read timeout.",
+             note="Trusted: as C02, plus the watchdog classes for 'within the read timeout' (timeout + 4 s). No separate byte-level design model: the packet reader is observed, not modelled.", ref="§7 C14"),
  "C15": dict(text="PacketQueue.tla (code-shaped queue vs flat FIFO) is checked exhaustively by TLC for all operation sequences of a bounded scope; every behaviour of the small scope and simulated longer ones are replayed on the real tds.PacketQueue and the recorded traces, plus random sequences at packet sizes 9..600, are validated by TLC against Trace_PacketQueue.tla.",
              note="Trusted: the transcription of the trace events (harness pq driver), TLC, the guarded hook VerifPacketDataLens. Domain restrictions listed in DESIGN.md C15 (writes at the end position, no reads into make() padding).", ref="§7 C15"),
 }
